@@ -41,8 +41,18 @@ def compatible_orders(spec):
     return out
 
 
-def run(ctx):
+def _one_tree(args):
+    spec, vals = args
     from phyclone.smc.utils import RootPermutationDistribution
+
+    data = make_data(vals, outlier_prob=0.1)
+    tree = build_tree(spec, data)
+    dist, npaths, _ = enumerate_outcomes(lambda r: tuple(d.idx for d in RootPermutationDistribution.sample(tree, r)))
+    log_pdf = float(RootPermutationDistribution.log_pdf(tree))
+    return spec, dist, npaths, log_pdf, compatible_orders(spec)
+
+
+def run(ctx):
 
     coq.check_property_file(ctx)
     ctx.rule = (
@@ -57,17 +67,17 @@ def run(ctx):
         specs += all_specs(range(n), outliers=(n <= (4 if ctx.quick else 4)))
     # a few larger random ones (kept small enough for full enumeration of shuffles)
     for _ in range(4 if ctx.quick else 40):
-        s = random_spec(ctx.rng, range(5 if ctx.quick else ctx.rng.randint(5, 6)), outlier_frac=0.25, max_block=2)
+        s = random_spec(ctx.rng, range(5), outlier_frac=0.25, max_block=2)
         specs.append(s)
     ctx.exhaustive = True
     vals = rational_values(ctx.rng, 6, 1, 3)
     data = make_data(vals, outlier_prob=0.1)
     cases = []
-    for spec in specs:
-        tree = build_tree(spec, data)
-        dist, npaths, _ = enumerate_outcomes(lambda r: tuple(d.idx for d in RootPermutationDistribution.sample(tree, r)))
-        log_pdf = float(RootPermutationDistribution.log_pdf(tree))
-        brute = compatible_orders(spec)
+    from concurrent.futures import ProcessPoolExecutor
+
+    with ProcessPoolExecutor(max_workers=12) as ex:
+        results = list(ex.map(_one_tree, [(spec, vals) for spec in specs], chunksize=8))
+    for spec, dist, npaths, log_pdf, brute in results:
         nb = len(brute)
         ctx.case(key=spec, nontrivial=nb > 1, sample={"tree": spec, "orders": nb, "paths": npaths, "log_pdf": log_pdf})
         ctx.count("outliers=%d" % len(spec[1]))
